@@ -5,6 +5,7 @@ import (
 	"context"
 	"encoding/json"
 	"fmt"
+	"io"
 	"math/rand"
 	"os"
 	"os/exec"
@@ -15,6 +16,7 @@ import (
 	"time"
 
 	mail "github.com/wneessen/go-mail"
+	"github.com/wneessen/go-mail/log"
 
 	"verif/hx"
 	"verif/refsmtp"
@@ -35,6 +37,8 @@ type c13Scn struct {
 	// the clean-up RSET is answered 421 + disconnect (dialer threads only: the connection is theirs), 3 DATA refused (554).
 	// Every other message must be unaffected.
 	Fault int `json:"fault,omitempty"`
+	// Debug: the Client logs its dialogue through the library's own log.Stdlog (debug level)
+	Debug bool `json:"debug,omitempty"`
 }
 
 type c13Case struct {
@@ -43,21 +47,23 @@ type c13Case struct {
 }
 
 var c13Scenarios = []c13Scn{
-	{"2xSend(1)", 2, 0, 1, "", 0},
-	{"2xSend(2)", 2, 0, 2, "", 0},
-	{"3xSend(1)", 3, 0, 1, "", 0},
-	{"2xDialAndSend(1)", 0, 2, 1, "", 0},
-	{"Send+DialAndSend", 1, 1, 1, "", 0},
-	{"2xSend+DialAndSend", 2, 1, 1, "", 0},
-	{"2xDialAndSend(1)+LOGIN", 0, 2, 1, "LOGIN", 0},
-	{"2xDialAndSend(1)+SCRAM", 0, 2, 1, "SCRAM-SHA-256", 0},
-	{"Send+DialAndSend+AUTODISCOVER", 1, 1, 1, "AUTODISCOVER", 0},
-	{"2xSend(1)/rcpt-refused", 2, 0, 1, "", 1},
-	{"2xSend(2)/data-refused", 2, 0, 2, "", 3},
-	{"Send+DialAndSend/dialer-rcpt-refused", 1, 1, 1, "", 1},
-	{"Send+DialAndSend/dialer-rcpt-refused+rset-fails", 1, 1, 1, "", 2},
-	{"Send+DialAndSend/dialer-data-refused", 1, 1, 1, "", 3},
-	{"2xDialAndSend(1)/rcpt-refused+rset-fails", 0, 2, 1, "", 2},
+	{"2xSend(1)", 2, 0, 1, "", 0, false},
+	{"2xSend(2)", 2, 0, 2, "", 0, false},
+	{"3xSend(1)", 3, 0, 1, "", 0, false},
+	{"2xDialAndSend(1)", 0, 2, 1, "", 0, false},
+	{"Send+DialAndSend", 1, 1, 1, "", 0, false},
+	{"2xSend+DialAndSend", 2, 1, 1, "", 0, false},
+	{"2xDialAndSend(1)+LOGIN", 0, 2, 1, "LOGIN", 0, false},
+	{"2xDialAndSend(1)+SCRAM", 0, 2, 1, "SCRAM-SHA-256", 0, false},
+	{"Send+DialAndSend+AUTODISCOVER", 1, 1, 1, "AUTODISCOVER", 0, false},
+	{"2xSend(1)/rcpt-refused", 2, 0, 1, "", 1, false},
+	{"2xSend(2)/data-refused", 2, 0, 2, "", 3, false},
+	{"Send+DialAndSend/dialer-rcpt-refused", 1, 1, 1, "", 1, false},
+	{"Send+DialAndSend/dialer-rcpt-refused+rset-fails", 1, 1, 1, "", 2, false},
+	{"Send+DialAndSend/dialer-data-refused", 1, 1, 1, "", 3, false},
+	{"2xDialAndSend(1)/rcpt-refused+rset-fails", 0, 2, 1, "", 2, false},
+	{"Send+DialAndSend+debuglog", 1, 1, 1, "", 0, true},
+	{"2xDialAndSend(1)+debuglog", 0, 2, 1, "", 0, true},
 }
 
 var c13Blocked int32
@@ -116,6 +122,9 @@ func c13Build(r *vf.Run, scn c13Scn, hook func(string)) *c13World {
 		return c
 	}}
 	opts := []mail.Option{mail.WithDialContextFunc(w.rig.Dial), mail.WithHELO("client.example.test"), mail.WithTLSPolicy(mail.NoTLS)}
+	if scn.Debug {
+		opts = append(opts, mail.WithDebugLog(), mail.WithLogger(log.New(io.Discard, log.LevelDebug)))
+	}
 	switch scn.Auth {
 	case "LOGIN":
 		opts = append(opts, mail.WithSMTPAuth(mail.SMTPAuthLoginNoEnc), mail.WithUsername(c19User), mail.WithPassword(c19Pass))
@@ -266,8 +275,9 @@ func c13RacePass(iter int) int {
 	rng := rand.New(rand.NewSource(int64(iter)))
 	var rmu sync.Mutex
 	for it := 0; it < iter; it++ {
-		for _, scn := range []c13Scn{{"2", 2, 0, 1, "", 0}, {"8", 6, 2, 1, "", 0}, {"64", 48, 16, 1, "", 0}, {"3x2", 3, 0, 2, "", 0}, {"dial", 0, 4, 1, "", 0},
-			{"dial+login", 0, 6, 1, "LOGIN", 0}, {"mixed+scram", 3, 5, 1, "SCRAM-SHA-256", 0}, {"mixed+auto", 2, 6, 1, "AUTODISCOVER", 0}} {
+		for _, scn := range []c13Scn{{"2", 2, 0, 1, "", 0, false}, {"8", 6, 2, 1, "", 0, false}, {"64", 48, 16, 1, "", 0, false}, {"3x2", 3, 0, 2, "", 0, false}, {"dial", 0, 4, 1, "", 0, false},
+			{"dial+login", 0, 6, 1, "LOGIN", 0, false}, {"mixed+scram", 3, 5, 1, "SCRAM-SHA-256", 0, false}, {"mixed+auto", 2, 6, 1, "AUTODISCOVER", 0, false},
+			{"mixed+debuglog", 4, 4, 1, "", 0, true}, {"dial+login+debuglog", 0, 6, 1, "LOGIN", 0, true}} {
 			if scn.Senders+scn.Dialers > 16 && it%4 != 0 {
 				continue
 			}
@@ -314,7 +324,7 @@ func init() {
 	vf.Register(&vf.Check{
 		ID: "C13", Title: "concurrent use of one Client is safe",
 		Run: func(r *vf.Run) {
-			r.SetRule("scenarios {2×Send(1 msg), 2×Send(2 msgs), 3×Send(1), 2×DialAndSend, Send+DialAndSend, 2×Send+DialAndSend, 2×DialAndSend with LOGIN / SCRAM authentication, Send+DialAndSend with auto-discovered authentication; and scenarios in which the server refuses one message (a recipient with or without a failing clean-up RSET, or DATA) of one thread while the other threads' messages must be unaffected} on one Client; ALL interleavings at visible operations (every Lock/RLock of go-mail's mutexes through the sync shim, every connection Read/Write/Close) up to the preemption bound, under a cooperative scheduler that models Go's RWMutex (a waiting writer blocks new readers); oracle per schedule: protocol monitor on every connection, commit log = every message the server did not refuse exactly once with its own envelope and complete content (a refused one never), exactly the calls without a refused message return nil, no deadlock; plus a separate free-running pass of the same bodies under the Go race detector (2..64 goroutines, jittered I/O) — that pass samples schedules; distinct by (scenario, schedule)")
+			r.SetRule("scenarios {2×Send(1 msg), 2×Send(2 msgs), 3×Send(1), 2×DialAndSend, Send+DialAndSend, 2×Send+DialAndSend, 2×DialAndSend with LOGIN / SCRAM authentication, Send+DialAndSend with auto-discovered authentication; scenarios with debug logging through the library's own logger, and scenarios in which the server refuses one message (a recipient with or without a failing clean-up RSET, or DATA) of one thread while the other threads' messages must be unaffected} on one Client; ALL interleavings at visible operations (every Lock/RLock of go-mail's mutexes through the sync shim, every connection Read/Write/Close) up to the preemption bound, under a cooperative scheduler that models Go's RWMutex (a waiting writer blocks new readers); oracle per schedule: protocol monitor on every connection, commit log = every message the server did not refuse exactly once with its own envelope and complete content (a refused one never), exactly the calls without a refused message return nil, no deadlock; plus a separate free-running pass of the same bodies under the Go race detector (2..64 goroutines, jittered I/O) — that pass samples schedules; distinct by (scenario, schedule)")
 			r.Assume("releases are not preemption points (sound for data-race-free code; races are the job of the separate -race pass)", "the race pass is sampling, not exhaustive: the 'no data race under any schedule' clause is only decided for the schedules it happens to run")
 			bound := 2
 			if r.Thorough {
